@@ -447,7 +447,7 @@ Lemma rom_v1_layout cfg keys ty (a cbb tr sig : list N) info :
   let off := length a in let cbsize := length cbb in
   rom_signed_v1 cfg keys ty s =
     if (ty =? 3)%Z
-    then let plain := ctr_xcrypt (aes_enc_block (rom_image_key keys s)) (rom_iv s off cbsize) (rom_cipher s off cbsize (length msg)) in
+    then let plain := ctr_xcrypt (aes_enc_block (rom_image_key cfg keys)) (rom_iv s off cbsize) (rom_cipher s off cbsize (length msg)) in
          if ivt_agree plain s then Some {| ro_plain := plain; ro_msg := msg; ro_obl := v1_obl info msg sig |} else None
     else Some {| ro_plain := msg; ro_msg := msg; ro_obl := v1_obl info msg sig |}.
 Proof.
@@ -989,7 +989,6 @@ Proof.
     rewrite E1, E2; repeat (rewrite nth_wr by lia); rewrite H1, H2, H3, H4; decide_ltb; try reflexivity; lia.
 Qed.
 
-Definition ks_nonempty (x : mbi) : Prop := match m_ks x with Some [] => False | _ => True end.
 Lemma okb_block1 : okb (1%N :: zeros 15) /\ okb (2%N :: zeros 15).
 Proof. split; split; try reflexivity; repeat constructor. Qed.
 Lemma rom_enc_key_ok key : length key = 32 -> wf_bytes key ->
@@ -1104,7 +1103,7 @@ Qed.
 Theorem enc_accept_l sign c x img cfg keys pre post sg certs table :
   k_enc c = true -> wf_input x -> m_cert x = Some (CertV1 pre post sg) -> cb_v1_ok pre post certs table ->
   rk_rkth keys = sha256 (concat table) -> r_cb cfg = CbV1 -> r_hmac cfg = true -> In 3%Z (r_types cfg) ->
-  tz_ok (r_tzsize cfg) x -> ks_wf x -> ks_nonempty x -> m_hmac x = Some (rk_user keys) -> wf_bytes (rk_user keys) ->
+  tz_ok (r_tzsize cfg) x -> ks_wf x -> r_ks cfg = ks_truthy_obj (m_ks x) -> m_hmac x = Some (rk_user keys) -> wf_bytes (rk_user keys) ->
   (forall m, length (sign m) = sg) -> 0 < sg ->
   export_mbi (real_crypto sign) c x = Ok img ->
   exists raw msg, let s := msg ++ sign msg in
@@ -1231,10 +1230,8 @@ Proof.
              {| c1_il := rd32 20 cbb; c1_certs := certs; c1_table := table |}).
   - cbv beta iota delta [Z.eqb Pos.eqb]. cbv zeta. fold msg. rewrite La, RCIPH, RIV.
     (* the ROM's image key is the builder's *)
-    assert (KEY : rom_image_key keys (a ++ cbb ++ tr ++ sign msg) = (if derive then rom_enc_key (rk_user keys) else rk_user keys)).
-    { unfold rom_image_key. replace (a ++ cbb ++ tr ++ sign msg) with s by (unfold s, msg; now rewrite <- !app_assoc).
-      rewrite KF. unfold derive, enc_derive, ks_truthy_obj, truthy_ks. unfold ks_nonempty in KN.
-      destruct (m_ks x) as [[|b0 t0]|]; [contradiction|reflexivity|reflexivity]. }
+    assert (KEY : rom_image_key cfg keys = (if derive then rom_enc_key (rk_user keys) else rk_user keys)).
+    { unfold rom_image_key. rewrite KN. unfold derive, enc_derive. destruct (ks_truthy_obj (m_ks x)); reflexivity. }
     rewrite KEY, RT.
     assert (IA : ivt_agree P (a ++ cbb ++ tr ++ sign msg) = true).
     { unfold ivt_agree.
@@ -1466,7 +1463,8 @@ Definition v21_digest (c : mbi_class) (x : mbi) (msg : list N) : list N :=
 Theorem v21_accept_l sign c x img cfg keys body sg info :
   k_v21 c = true -> wf_input x -> m_cert x = Some (CertV21 body sg) -> cb_v21_ok (rk_rkth keys) body info ->
   r_cb cfg = CbV21 -> r_hmac cfg = false -> r_mcrc cfg = has c MixinManifestCrc -> In (c_type c) (r_types cfg) ->
-  tz_ok (r_tzsize cfg) x -> (0 <= m_digest x <= 3)%Z -> (m_digest x = 0 \/ m_digest x = c2_alg info - 1)%Z ->
+  tz_ok (r_tzsize cfg) x -> (0 <= m_digest x <= 3)%Z ->
+  (has c MixinManifestDigest = true -> m_digest x = 0 \/ m_digest x = c2_alg info - 1)%Z ->
   sg = 2 * klen_of info -> (forall m, length (sign m) = sg) ->
   export_mbi (real_crypto sign) c x = Ok img ->
   exists msg, img = msg ++ sign msg ++ v21_digest c x msg /\
@@ -1590,7 +1588,7 @@ Proof.
     + assert (HD : has c MixinManifestDigest = true) by (destruct (has c MixinManifestDigest); [reflexivity|discriminate XM]).
       cbn [andb negb orb]. unfold mf_flags. rewrite HC. unfold v21_digest. rewrite HD. cbn [andb].
       unfold manifest_flags. change G_MANIFEST_DIGEST_PRESENT_FLAG with 2147483648%Z.
-      destruct DM as [D0|D1].
+      destruct (DM HD) as [D0|D1].
       * rewrite D0. reflexivity.
       * assert (D : (m_digest x = 0 \/ m_digest x = 1 \/ m_digest x = 2 \/ m_digest x = 3)%Z) by lia.
         destruct D as [D|[D|[D|D]]]; rewrite D in *; cbn; rewrite <- ?D1; try reflexivity; rewrite eqb_list_refl'; reflexivity.
@@ -1618,39 +1616,29 @@ Definition demo_c_v21 : mbi_class :=
 Definition demo_key : list N := map N.of_nat (seq 100 32).
 Definition demo_x_enc (ks : option (list N)) : mbi :=
   set_ks (set_iv (set_hmac (set_cert (demo_x 80) (Some (CertV1 demo_pre demo_post 256))) (Some demo_key)) (map N.of_nat (seq 7 16))) ks.
-Definition demo_cfg_enc : rom_cfg := {| r_cb := CbV1; r_hmac := true; r_tzsize := 464; r_mcrc := false; r_types := [3%Z] |}.
+Definition demo_cfg_enc (ks : bool) : rom_cfg := {| r_cb := CbV1; r_hmac := true; r_tzsize := 464; r_mcrc := false; r_types := [3%Z]; r_ks := ks |}.
 Definition demo_keys_enc : rom_keys := {| rk_rkth := sha256 (concat demo_table); rk_user := demo_key |}.
 Definition rom_accepts (cfg : rom_cfg) (keys : rom_keys) (r : res (list N)) : bool :=
   match r with Ok img => match rom_mbi cfg keys img with Some _ => true | None => false end | Err _ => false end.
 
 Example demo_enc_instance :
-  k_enc demo_c_enc = true /\ wf_input (demo_x_enc None) /\ ks_wf (demo_x_enc None) /\ ks_nonempty (demo_x_enc None) /\
-  rom_accepts demo_cfg_enc demo_keys_enc (export_mbi (real_crypto (demo_sign 256)) demo_c_enc (demo_x_enc None)) = true.
-Proof. split; [vm_compute; reflexivity|]. split; [apply demo_wf|]. split; [exact I|]. split; [exact I|vm_compute; reflexivity]. Qed.
-
-(* finding C02-F2: a key store object without content -- exported, rejected by the ROM model (the image key differs) *)
-Lemma enc_empty_keystore_refuted_l :
-  exists (c : mbi_class) (x : mbi) (img : list N),
-    k_enc c = true /\ wf_input x /\ m_ks x = Some [] /\
-    export_mbi (real_crypto (demo_sign 256)) c x = Ok img /\ rom_mbi demo_cfg_enc demo_keys_enc img = None /\
-    rom_accepts demo_cfg_enc demo_keys_enc (export_mbi (real_crypto (demo_sign 256)) c (set_ks x None)) = true.
-Proof.
-  exists demo_c_enc, (demo_x_enc (Some [])).
-  destruct (export_mbi (real_crypto (demo_sign 256)) demo_c_enc (demo_x_enc (Some []))) as [img|k] eqn:E.
-  - exists img. split; [vm_compute; reflexivity|]. split; [apply demo_wf|]. split; [reflexivity|]. split; [reflexivity|].
-    split; [|vm_compute; reflexivity].
-    assert (X : rom_accepts demo_cfg_enc demo_keys_enc (export_mbi (real_crypto (demo_sign 256)) demo_c_enc (demo_x_enc (Some []))) = false)
-      by (vm_compute; reflexivity).
-    rewrite E in X. unfold rom_accepts in X. destruct (rom_mbi demo_cfg_enc demo_keys_enc img); [discriminate X|reflexivity].
-  - exfalso. assert (X : is_ok (export_mbi (real_crypto (demo_sign 256)) demo_c_enc (demo_x_enc (Some []))) = true) by (vm_compute; reflexivity).
-    rewrite E in X. discriminate X.
-Qed.
+  k_enc demo_c_enc = true /\ wf_input (demo_x_enc None) /\ ks_wf (demo_x_enc None) /\
+  rom_accepts (demo_cfg_enc false) demo_keys_enc (export_mbi (real_crypto (demo_sign 256)) demo_c_enc (demo_x_enc None)) = true.
+Proof. split; [vm_compute; reflexivity|]. split; [apply demo_wf|]. split; [exact I|vm_compute; reflexivity]. Qed.
+(* the key source decides the image key: an image built WITHOUT key store is refused by a device that takes the user key from
+   its key store, and an image built for the KEYSTORE source (here: key store object without embedded data) is refused by a
+   device that derives the key from the master key; each is accepted by the matching device *)
+Example demo_enc_key_source :
+  rom_accepts (demo_cfg_enc true) demo_keys_enc (export_mbi (real_crypto (demo_sign 256)) demo_c_enc (demo_x_enc None)) = false /\
+  rom_accepts (demo_cfg_enc true) demo_keys_enc (export_mbi (real_crypto (demo_sign 256)) demo_c_enc (demo_x_enc (Some []))) = true /\
+  rom_accepts (demo_cfg_enc false) demo_keys_enc (export_mbi (real_crypto (demo_sign 256)) demo_c_enc (demo_x_enc (Some []))) = false.
+Proof. repeat split; vm_compute; reflexivity. Qed.
 
 (* certificate block v2.1 with one P-256 root key, no ISK: "chdr" 1 0 2 0 | size 80 | flags 0x80000011 | X || Y *)
 Definition demo_body21 : list N := (CHDR_B ++ le_enc 4 80 ++ le_enc 4 2147483665 ++ zeros 64)%N.
 Definition demo_info21 : cb21_info := {| c2_size := 80; c2_obl := []; c2_alg := 2; c2_pub := zeros 64 |}.
 Definition demo_keys21 : rom_keys := {| rk_rkth := sha256 (zeros 64); rk_user := [] |}.
-Definition demo_cfg21 : rom_cfg := {| r_cb := CbV21; r_hmac := false; r_tzsize := 1100; r_mcrc := false; r_types := [4%Z] |}.
+Definition demo_cfg21 : rom_cfg := {| r_cb := CbV21; r_hmac := false; r_tzsize := 1100; r_mcrc := false; r_types := [4%Z]; r_ks := false |}.
 Definition demo_x21 (dg : Z) : mbi :=
   {| m_app := demo_app 60; m_load := 0; m_imgver := 0; m_subtype := 0; m_fwver := 7; m_tz := TzEnabled; m_hwkey := false;
      m_ks := None; m_hmac := None; m_iv := []; m_table := None; m_cert := Some (CertV21 demo_body21 64); m_digest := dg |}.
@@ -1664,20 +1652,67 @@ Proof.
   split; [vm_compute; reflexivity|]. split; [unfold wf_input, demo_x21; cbn; repeat split; lia|]. split; [reflexivity|].
   split; vm_compute; reflexivity.
 Qed.
-(* finding C02-F1: manifest digest algorithm SHA-384 over a P-256 signature -- exported, rejected by the ROM model *)
-Lemma digest_alg_mismatch_refuted_l :
-  exists (c : mbi_class) (x : mbi) (img : list N),
-    k_v21 c = true /\ wf_input x /\ cb_v21_ok (rk_rkth demo_keys21) demo_body21 demo_info21 /\
-    m_cert x = Some (CertV21 demo_body21 64) /\ m_digest x = 2%Z /\ c2_alg demo_info21 = 2%Z /\
-    export_mbi (real_crypto (demo_sign 64)) c x = Ok img /\ rom_mbi demo_cfg21 demo_keys21 img = None.
+(* ------------------------------------------------------------------ the manifest digest algorithm is checked at export *)
+Lemma export_c02_inv k c x img : export_c02 k c x = Ok img -> digest_guard c x = Ok tt /\ export_mbi k c x = Ok img.
 Proof.
-  exists demo_c_v21, (demo_x21 2).
-  destruct (export_mbi (real_crypto (demo_sign 64)) demo_c_v21 (demo_x21 2)) as [img|k] eqn:E.
-  - exists img. split; [vm_compute; reflexivity|]. split; [unfold wf_input, demo_x21; cbn; repeat split; lia|].
-    split; [apply demo_cb21_ok|]. repeat (split; [reflexivity|]).
-    assert (X : rom_accepts demo_cfg21 demo_keys21 (export_mbi (real_crypto (demo_sign 64)) demo_c_v21 (demo_x21 2)) = false)
-      by (vm_compute; reflexivity).
-    rewrite E in X. unfold rom_accepts in X. destruct (rom_mbi demo_cfg21 demo_keys21 img); [discriminate X|reflexivity].
-  - exfalso. assert (X : is_ok (export_mbi (real_crypto (demo_sign 64)) demo_c_v21 (demo_x21 2)) = true) by (vm_compute; reflexivity).
-    rewrite E in X. discriminate X.
+  unfold export_c02. destruct (negb (supported c)); [discriminate|].
+  destruct (validate c x) as [[]|]; cbn [bind]; [|discriminate].
+  destruct (digest_guard c x) as [[]|]; cbn [bind]; [|discriminate]. auto.
+Qed.
+Lemma digest_guard_ok c x cb : provider c SCollect = Some ExportMixinAppCertBlockManifest -> has c MixinManifestDigest = true ->
+  m_cert x = Some cb -> digest_guard c x = Ok tt -> (m_digest x = 0 \/ hash_type_of_sig (cert_sig cb) = Some (m_digest x))%Z.
+Proof.
+  intros PC HD MC G. unfold digest_guard in G. rewrite PC, HD, MC in G. cbn [andb] in G.
+  destruct (m_digest x =? 0)%Z eqn:E0; [left; now apply Z.eqb_eq|]. right. cbn [negb] in G.
+  destruct (hash_type_of_sig (cert_sig cb)) as [a|]; [|discriminate].
+  destruct (a =? m_digest x)%Z eqn:E; [|discriminate]. apply Z.eqb_eq in E. now subst.
+Qed.
+(* a digest algorithm other than the hash of the signing key is refused with an SPSDK error: nothing is exported *)
+Lemma digest_alg_refused_l k c x cb :
+  supported c = true -> validate c x = Ok tt -> provider c SCollect = Some ExportMixinAppCertBlockManifest ->
+  has c MixinManifestDigest = true -> m_cert x = Some cb -> (m_digest x <> 0)%Z ->
+  hash_type_of_sig (cert_sig cb) <> Some (m_digest x) -> export_c02 k c x = Err E_REJECT.
+Proof.
+  intros S V PC HD MC D0 HT. unfold export_c02. rewrite S, V. cbn [negb bind]. unfold digest_guard. rewrite PC, HD, MC.
+  apply Z.eqb_neq in D0. rewrite D0. cbn [andb negb].
+  destruct (hash_type_of_sig (cert_sig cb)) as [a|]; [|reflexivity].
+  destruct (a =? m_digest x)%Z eqn:E; [|reflexivity]. apply Z.eqb_eq in E. subst. congruence.
+Qed.
+Example digest_alg_refused_instance :
+  export_c02 (real_crypto (demo_sign 64)) demo_c_v21 (demo_x21 2) = Err E_REJECT /\
+  is_ok (export_c02 (real_crypto (demo_sign 64)) demo_c_v21 (demo_x21 1)) = true.
+Proof. split; vm_compute; reflexivity. Qed.
+
+Lemma rom_cb_v21_body_alg rkth cb size info : rom_cb_v21_body rkth cb size = Some info -> (c2_alg info = 2 \/ c2_alg info = 3)%Z.
+Proof.
+  unfold rom_cb_v21_body. intros H. cbv zeta in H.
+  set (typ := Z.land (rd32 12 cb) 15) in *.
+  match type of H with context [Z.land (rd32 ?e cb) 15] => set (ityp := Z.land (rd32 e cb) 15) in * end.
+  destruct (negb ((typ =? 1) || (typ =? 2))%Z) eqn:T; [discriminate|].
+  assert (TT : (typ = 1 \/ typ = 2)%Z).
+  { apply negb_false_iff, orb_true_iff in T as [T|T]; apply Z.eqb_eq in T; auto. }
+  clearbody typ ityp.
+  repeat match type of H with
+         | (if ?b then _ else _) = Some _ => destruct b eqn:?; try discriminate H
+         end; injection H as <-; cbn [c2_alg]; lia.
+Qed.
+
+Theorem v21_accept_c02_l sign c x img cfg keys body sg info :
+  k_v21 c = true -> wf_input x -> m_cert x = Some (CertV21 body sg) -> cb_v21_ok (rk_rkth keys) body info ->
+  r_cb cfg = CbV21 -> r_hmac cfg = false -> r_mcrc cfg = has c MixinManifestCrc -> In (c_type c) (r_types cfg) ->
+  tz_ok (r_tzsize cfg) x -> (0 <= m_digest x <= 3)%Z ->
+  sg = 2 * klen_of info -> (forall m, length (sign m) = sg) ->
+  export_c02 (real_crypto sign) c x = Ok img ->
+  exists msg, img = msg ++ sign msg ++ v21_digest c x msg /\
+    rom_mbi cfg keys img = Some {| ro_plain := msg; ro_msg := msg; ro_obl := v21_obl info msg (sign msg) |}.
+Proof.
+  intros K WI MC CB RCB RH RMC TY TZ DG SGE SL E.
+  destruct (export_c02_inv _ c x img E) as (G & E').
+  assert (DM : has c MixinManifestDigest = true -> (m_digest x = 0 \/ m_digest x = c2_alg info - 1)%Z).
+  { intros HD. pose proof K as K0. unfold k_v21 in K0. apply andb_true_iff in K0 as [K0 _]. do 16 (apply andb_true_iff in K0 as [K0 ?]).
+    match goal with H : prov_is c SCollect _ = true |- _ => apply prov_is_eq in H; rename H into PC end.
+    destruct (digest_guard_ok c x _ PC HD MC G) as [D0|DH]; [now left|]. right. cbn [cert_sig] in DH.
+    destruct CB as (_ & _ & _ & BD). destruct (rom_cb_v21_body_alg _ _ _ _ BD) as [A|A];
+      unfold klen_of in SGE; rewrite A in SGE; cbn in SGE; subst sg; cbn in DH; injection DH as <-; lia. }
+  exact (v21_accept_l sign c x img cfg keys body sg info K WI MC CB RCB RH RMC TY TZ DG DM SGE SL E').
 Qed.
